@@ -1,4 +1,6 @@
 import DinoProofs.Lemmas.Dynamics
+import DinoProofs.Lemmas.DynamicsMoist
+import DinoProofs.Lemmas.DynamicsToy
 import Mathlib.Tactic.NormNum
 import Mathlib.Data.Rat.Defs
 
@@ -141,4 +143,311 @@ theorem total_tendency_with_time_indep_of_reference (eq : PrimitiveEquations K M
     PrimitiveEquationsWithTime.implicitTerms, this]
 
 end T42
+
+/-! ## T4.3 — the moist class; T4.4 — the cloud class -/
+section T43
+variable {K M N : Type} [Field K] [DecidableEq K] [AddCommGroup M] [Module K M] [CommRing N] [Algebra K N]
+  [Div N]
+
+/-- `explicit + implicit` of `MoistPrimitiveEquations` (`none` = the `ValueError` of a missing
+ tracer; `sim_time` tendencies 1 and 0) -/
+def totalMoist (eq : PrimitiveEquations K M N) (s : StateWithTime K M) : Option (StateWithTime K M) :=
+  (MoistPrimitiveEquations.explicitTerms eq s).map fun e =>
+    { state := State.add e.state (MoistPrimitiveEquations.implicitTerms eq s).state
+      simTime := e.simTime + (MoistPrimitiveEquations.implicitTerms eq s).simTime }
+
+/-- `explicit + implicit` of `MoistPrimitiveEquationsWithCloudMoisture` -/
+def totalCloud (eq : PrimitiveEquations K M N) (s : StateWithTime K M) : Option (StateWithTime K M) :=
+  (MoistPrimitiveEquationsWithCloudMoisture.explicitTerms eq s).map fun e =>
+    { state := State.add e.state (MoistPrimitiveEquationsWithCloudMoisture.implicitTerms eq s).state
+      simTime := e.simTime + (MoistPrimitiveEquationsWithCloudMoisture.implicitTerms eq s).simTime }
+
+/-- **T4.3 (moist class)** Two reference profiles, two states of the same absolute temperature that
+ carry specific humidity `q` (spectral column `qm`): `explicit_terms + implicit_terms` of
+ `MoistPrimitiveEquations` evaluates (no missing-tracer error) to the same `StateWithTime`.
+ Hypotheses beyond T4.2: `MoistLaws` (`product_rule_resolved`, `curl_product_rule_resolved`:
+ flux form = product-rule form through the nodal products — validated on quadratic and cubic grids,
+ **false on linear grids**), `q` clipped like the rest of the state, `R ≠ 0`, and division by
+ `1 + (c_pv/c_p − 1) q` being a true inverse at every level (`1 + ε_cp q ≠ 0` pointwise), which
+ gives `(1+ε_R q)/(1+ε_cp q) − (ε_R−ε_cp) q/(1+ε_cp q) = 1`. -/
+theorem total_tendency_moist_indep_of_reference (eq : PrimitiveEquations K M N) (T₂ : List K)
+    (s₁ : StateWithTime K M) (t₂ qm : List M) (n : ℕ) (L : Laws eq.ops) (ML : MoistLaws eq.ops)
+    (A : Admissible eq.ops s₁.state) (S : Shaped eq s₁.state n) (hT₂ : T₂.length = n) (ht₂ : t₂.length = n)
+    (hinc : eq.includeVerticalAdvection = true) (h2 : (1 + 1 : K) ≠ 0) (hR : eq.phys.R ≠ 0)
+    (hq : lookup specificHumidityKey s₁.state.tracers = some qm) (hqn : qm.length = n)
+    (hqc : ∀ x ∈ qm, eq.ops.clip x = x)
+    (hdiv : ∀ i, i < n → ∀ x : N,
+      ((1 : N) + (eq.phys.CpVapor / (eq.phys.R / eq.phys.kappa) - 1) • eq.ops.toNodal (lv qm i))
+        * (x / ((1 : N) + (eq.phys.CpVapor / (eq.phys.R / eq.phys.kappa) - 1) • eq.ops.toNodal (lv qm i))) = x)
+    (habs : ∀ i, i < n →
+      lv t₂ i + lv T₂ i • eq.ops.oneModal
+        = lv s₁.state.temperatureVariation i + lv eq.referenceTemperature i • eq.ops.oneModal) :
+    ∃ r, totalMoist eq s₁ = some r
+      ∧ totalMoist (withTRef eq T₂) { state := s₁.state.withT t₂, simTime := s₁.simTime } = some r := by
+  obtain ⟨h1, h3⟩ := shift_of_abs eq T₂ s₁.state.temperatureVariation t₂ n S.tr S.t hT₂ ht₂ habs
+  have hd : (Col.sub eq.referenceTemperature T₂).length = n := by simp [Col.sub, S.tr, hT₂]
+  have hFl : ((Col.smul (eq.phys.Rvapor / eq.phys.R - 1) (qm.map eq.ops.toNodal)).map
+      fun m => (1 : N) + m).length = n := by simp [Col.smul, hqn]
+  obtain ⟨e1, e2⟩ := totalMoistWith_shift eq s₁ (Col.sub eq.referenceTemperature T₂) n L ML A S hd hinc h2 hR
+    qm hq hqn hqc
+    ((Col.smul (eq.phys.Rvapor / eq.phys.R - 1) (qm.map eq.ops.toNodal)).map fun m => (1 : N) + m)
+    (Col.zerosLike qm) hFl (by simp [Col.zerosLike, hqn])
+    (fun i hi => by
+      rw [lv_map _ _ (by simp [Col.smul, hqn]; exact hi), lv_smul, lv_map _ _ (by rw [hqn]; exact hi),
+        lv_zerosLike, sub_zero])
+    hdiv (MoistPrimitiveEquations.virtualTemperature eq)
+    (MoistPrimitiveEquations.virtualTemperature
+      (withTRef eq (Col.sub eq.referenceTemperature (Col.sub eq.referenceTemperature T₂))))
+    (fun aux _ => virtualTemperature_eq eq aux _) (fun aux _ => virtualTemperature_eq _ aux _)
+  rw [← h1, ← h3] at e2
+  have hlen := moistTotalOf_lengths eq s₁.state n S _ qm
+    (rTvOf_length eq.phys.R _ _ n (diag_shaped eq s₁.state n S).t hFl) hqn
+  have hres := lv_condResidual_zero L eq.phys.R s₁.state.logSurfacePressure
+    (Col.sub eq.referenceTemperature T₂) (Col.zerosLike qm : List N) (fun i => lv_zerosLike qm i)
+  rw [State.addMomentum_zero _ _
+    (by rw [hlen.1]; simp [condResidual, Col.zerosLike, hd, hqn])
+    (by rw [hlen.2]; simp [condResidual, Col.zerosLike, hd, hqn])
+    (fun i => (hres i).1) (fun i => (hres i).2)] at e2
+  exact ⟨_, e1, e2⟩
+
+/-- **T4.4 (cloud class), `cloud_split_residual`**: for `MoistPrimitiveEquationsWithCloudMoisture`
+ the two totals are *not* equal: with `c = q_l + q_i` (nodal) and `dT = T_ref − T₂`,
+ `total(T₂) = total(T_ref) + R·dT·clip((curl | div)_cos_lat(c · sec²θ · cosθ∇ln p_s))` in the vorticity
+ resp. divergence tendency, level by level; temperature, surface pressure, tracers and `sim_time`
+ tendencies agree.  (`_virtual_temperature` applies the loading `−(q_l+q_i)` to `T'` only, so the
+ share `−R·T_ref·(q_l+q_i)∇ln p_s` of the pressure-gradient force is in neither half.)  No
+ assumption on `q_l`, `q_i` beyond their shapes. -/
+theorem cloud_split_residual (eq : PrimitiveEquations K M N) (T₂ : List K)
+    (s₁ : StateWithTime K M) (t₂ qm qlm qim : List M) (n : ℕ) (L : Laws eq.ops) (ML : MoistLaws eq.ops)
+    (A : Admissible eq.ops s₁.state) (S : Shaped eq s₁.state n) (hT₂ : T₂.length = n) (ht₂ : t₂.length = n)
+    (hinc : eq.includeVerticalAdvection = true) (h2 : (1 + 1 : K) ≠ 0) (hR : eq.phys.R ≠ 0)
+    (hq : lookup specificHumidityKey s₁.state.tracers = some qm) (hqn : qm.length = n)
+    (hqc : ∀ x ∈ qm, eq.ops.clip x = x)
+    (hql : lookup cloudWaterKey s₁.state.tracers = some qlm) (hqln : qlm.length = n)
+    (hqi : lookup cloudIceKey s₁.state.tracers = some qim) (hqin : qim.length = n)
+    (hdiv : ∀ i, i < n → ∀ x : N,
+      ((1 : N) + (eq.phys.CpVapor / (eq.phys.R / eq.phys.kappa) - 1) • eq.ops.toNodal (lv qm i))
+        * (x / ((1 : N) + (eq.phys.CpVapor / (eq.phys.R / eq.phys.kappa) - 1) • eq.ops.toNodal (lv qm i))) = x)
+    (habs : ∀ i, i < n →
+      lv t₂ i + lv T₂ i • eq.ops.oneModal
+        = lv s₁.state.temperatureVariation i + lv eq.referenceTemperature i • eq.ops.oneModal) :
+    ∃ r₁ : StateWithTime K M, totalCloud eq s₁ = some r₁
+      ∧ r₁.state.vorticity.length = n ∧ r₁.state.divergence.length = n
+      ∧ totalCloud (withTRef eq T₂) { state := s₁.state.withT t₂, simTime := s₁.simTime }
+        = some { state := r₁.state.addMomentum
+                    (condResidual eq.ops eq.phys.R s₁.state.logSurfacePressure
+                      (Col.sub eq.referenceTemperature T₂)
+                      (Col.add (qlm.map eq.ops.toNodal) (qim.map eq.ops.toNodal)))
+                 simTime := r₁.simTime } := by
+  obtain ⟨h1, h3⟩ := shift_of_abs eq T₂ s₁.state.temperatureVariation t₂ n S.tr S.t hT₂ ht₂ habs
+  have hd : (Col.sub eq.referenceTemperature T₂).length = n := by simp [Col.sub, S.tr, hT₂]
+  have hFl : (Col.sub (Col.sub ((Col.smul (eq.phys.Rvapor / eq.phys.R - 1) (qm.map eq.ops.toNodal)).map
+      fun m => (1 : N) + m) (qlm.map eq.ops.toNodal)) (qim.map eq.ops.toNodal)).length = n := by
+    simp [Col.sub, Col.smul, hqn, hqln, hqin]
+  have hl : lookup cloudWaterKey (computeDiagnosticState eq.ops eq.vert s₁.state).tracers
+      = some (qlm.map eq.ops.toNodal) := by
+    show lookup cloudWaterKey (mapTracers _ s₁.state.tracers) = _
+    rw [lookup_mapTracers, hql]; rfl
+  have hi' : lookup cloudIceKey (computeDiagnosticState eq.ops eq.vert s₁.state).tracers
+      = some (qim.map eq.ops.toNodal) := by
+    show lookup cloudIceKey (mapTracers _ s₁.state.tracers) = _
+    rw [lookup_mapTracers, hqi]; rfl
+  obtain ⟨e1, e2⟩ := totalMoistWith_shift eq s₁ (Col.sub eq.referenceTemperature T₂) n L ML A S hd hinc h2 hR
+    qm hq hqn hqc _ (Col.add (qlm.map eq.ops.toNodal) (qim.map eq.ops.toNodal)) hFl
+    (by simp [Col.add, hqln, hqin])
+    (fun i hi => by
+      rw [lv_sub _ _ (by simp [Col.sub, Col.smul, hqn, hqln, hqin]), lv_sub _ _ (by simp [Col.smul, hqn, hqln]),
+        lv_map _ _ (by simp [Col.smul, hqn]; exact hi), lv_smul, lv_map _ _ (by rw [hqn]; exact hi),
+        lv_add _ _ (by simp [hqln, hqin])]
+      ring)
+    hdiv (MoistPrimitiveEquations.virtualTemperatureWithClouds eq)
+    (MoistPrimitiveEquations.virtualTemperatureWithClouds
+      (withTRef eq (Col.sub eq.referenceTemperature (Col.sub eq.referenceTemperature T₂))))
+    (fun aux ha => virtualTemperatureWithClouds_eq eq aux _ _ _ (by rw [ha]; exact hl) (by rw [ha]; exact hi'))
+    (fun aux ha => virtualTemperatureWithClouds_eq _ aux _ _ _ (by rw [ha]; exact hl) (by rw [ha]; exact hi'))
+  rw [← h1, ← h3] at e2
+  have hlen := moistTotalOf_lengths eq s₁.state n S _ qm
+    (rTvOf_length eq.phys.R _ _ n (diag_shaped eq s₁.state n S).t hFl) hqn
+  exact ⟨_, e1, hlen.1, hlen.2, e2⟩
+
+/-- **T4.4, `cloud_indep_of_reference_partial`**: the full statement
+ "`totalCloud` does not depend on the reference profile" is **false** on the current code (see
+ `cloud_split_residual` and the witness `cloud_depends_on_reference` below); it holds when there is no
+ condensate, `q_l = q_i = 0`. -/
+theorem cloud_indep_of_reference_partial (eq : PrimitiveEquations K M N) (T₂ : List K)
+    (s₁ : StateWithTime K M) (t₂ qm qlm qim : List M) (n : ℕ) (L : Laws eq.ops) (ML : MoistLaws eq.ops)
+    (A : Admissible eq.ops s₁.state) (S : Shaped eq s₁.state n) (hT₂ : T₂.length = n) (ht₂ : t₂.length = n)
+    (hinc : eq.includeVerticalAdvection = true) (h2 : (1 + 1 : K) ≠ 0) (hR : eq.phys.R ≠ 0)
+    (hq : lookup specificHumidityKey s₁.state.tracers = some qm) (hqn : qm.length = n)
+    (hqc : ∀ x ∈ qm, eq.ops.clip x = x)
+    (hql : lookup cloudWaterKey s₁.state.tracers = some qlm) (hqln : qlm.length = n)
+    (hqi : lookup cloudIceKey s₁.state.tracers = some qim) (hqin : qim.length = n)
+    (hql0 : ∀ x ∈ qlm, x = 0) (hqi0 : ∀ x ∈ qim, x = 0)
+    (hdiv : ∀ i, i < n → ∀ x : N,
+      ((1 : N) + (eq.phys.CpVapor / (eq.phys.R / eq.phys.kappa) - 1) • eq.ops.toNodal (lv qm i))
+        * (x / ((1 : N) + (eq.phys.CpVapor / (eq.phys.R / eq.phys.kappa) - 1) • eq.ops.toNodal (lv qm i))) = x)
+    (habs : ∀ i, i < n →
+      lv t₂ i + lv T₂ i • eq.ops.oneModal
+        = lv s₁.state.temperatureVariation i + lv eq.referenceTemperature i • eq.ops.oneModal) :
+    ∃ r, totalCloud eq s₁ = some r
+      ∧ totalCloud (withTRef eq T₂) { state := s₁.state.withT t₂, simTime := s₁.simTime } = some r := by
+  obtain ⟨r₁, e1, hv, hdl, e2⟩ := cloud_split_residual eq T₂ s₁ t₂ qm qlm qim n L ML A S hT₂ ht₂ hinc h2 hR
+    hq hqn hqc hql hqln hqi hqin hdiv habs
+  have hd : (Col.sub eq.referenceTemperature T₂).length = n := by simp [Col.sub, S.tr, hT₂]
+  have hz : ∀ (x : List M), (∀ y ∈ x, y = 0) → ∀ i, lv (x.map eq.ops.toNodal) i = 0 := by
+    intro x hx i
+    rw [lv_map_zero _ L.toNodal_lin.map_zero]
+    by_cases h : i < x.length
+    · rw [hx _ (lv_mem x i h), L.toNodal_lin.map_zero]
+    · rw [lv_of_ge (by omega), L.toNodal_lin.map_zero]
+  have hc0 : ∀ i, lv (Col.add (qlm.map eq.ops.toNodal) (qim.map eq.ops.toNodal)) i = 0 := by
+    intro i
+    rw [lv_add _ _ (by simp [hqln, hqin]), hz qlm hql0, hz qim hqi0, add_zero]
+  have hres := lv_condResidual_zero L eq.phys.R s₁.state.logSurfacePressure
+    (Col.sub eq.referenceTemperature T₂) _ hc0
+  rw [State.addMomentum_zero _ _
+    (by rw [hv]; simp [condResidual, Col.add, hd, hqln, hqin])
+    (by rw [hdl]; simp [condResidual, Col.add, hd, hqln, hqin])
+    (fun i => (hres i).1) (fun i => (hres i).2)] at e2
+  exact ⟨r₁, e1, e2⟩
+
+end T43
+
+/-! ## non-vacuity: the hypotheses of T4.2 – T4.4 on a concrete object; the cloud witness
+
+`Dino.Dynamics.Toy`: 2-jets in two variables over `ℚ` (a commutative algebra with two commuting
+Leibniz derivations, a Laplacian that is invertible off the constants, a truncation as `clip`, and
+a genuine inverse of `1 + c·q`), satisfying `Laws` and `MoistLaws` (`toy_laws`, `toy_moistLaws`).
+Two uneven layers, variable `T_ref = [2, 3]` against `T₂ = [1, 5]`, non-constant humidity. -/
+section Examples
+open Dino.Dynamics.Toy
+
+/-- a jet of degree ≤ 1 (a "clipped" field) -/
+def exJ (a b c : ℚ) : J := ⟨a, b, c, 0, 0, 0⟩
+
+def exEq : PrimitiveEquations ℚ J J :=
+  { ops := toy
+    vert := { boundaries := [0, 1 / 3, 1], logCenters := [-2, -1 / 2] }
+    phys := { angularVelocity := 1, g := 1, R := 2, Rvapor := 3, CpVapor := 5, kappa := 1 / 4 }
+    referenceTemperature := [2, 3]
+    orography := exJ 0 1 1 }
+
+def exState (tracers : List (String × List J)) : StateWithTime ℚ J :=
+  { state :=
+      { vorticity := [exJ 1 2 0, exJ 0 1 1]
+        divergence := [exJ 0 1 2, exJ 0 (-1) 1]
+        temperatureVariation := [⟨1, 1, 0, 1, 0, 0⟩, ⟨2, 0, 1, 0, 1, 0⟩]
+        logSurfacePressure := exJ 0 1 1
+        tracers := tracers }
+    simTime := 7 }
+
+def exT₂ : List ℚ := [1, 5]
+/-- `T' + (T_ref − T₂)·1` -/
+def exT' : List J := [⟨2, 1, 0, 1, 0, 0⟩, ⟨0, 0, 1, 0, 1, 0⟩]
+def exQ : List J := [exJ (1 / 10) 1 0, exJ (1 / 5) 0 1]
+def exQl : List J := [exJ 1 0 0, exJ (1 / 2) 1 0]
+def exQi : List J := [exJ 0 0 0, exJ 0 0 1]
+def exMoist : List (String × List J) := [(specificHumidityKey, exQ)]
+def exCloud : List (String × List J) := [(specificHumidityKey, exQ), (cloudWaterKey, exQl), (cloudIceKey, exQi)]
+
+theorem ex_admissible (tr : List (String × List J)) : Admissible exEq.ops (exState tr).state where
+  vort_clip := by
+    intro z hz
+    simp only [exState, List.mem_cons, List.not_mem_nil, or_false] at hz
+    rcases hz with rfl | rfl <;> rfl
+  div_clip := by
+    intro z hz
+    simp only [exState, List.mem_cons, List.not_mem_nil, or_false] at hz
+    rcases hz with rfl | rfl <;> rfl
+  div_mean := by
+    intro z hz
+    simp only [exState, List.mem_cons, List.not_mem_nil, or_false] at hz
+    rcases hz with rfl | rfl <;> (ext <;> simp [exEq, toy, J.lap, J.invLap, exJ])
+  lsp_clip := rfl
+
+theorem ex_shaped (tr : List (String × List J)) : Shaped exEq (exState tr).state 2 :=
+  { pos := by norm_num, hb := rfl, hlc := rfl, tr := rfl, z := rfl, d := rfl, t := rfl }
+
+theorem ex_abs : ∀ i, i < 2 →
+    lv exT' i + lv exT₂ i • exEq.ops.oneModal
+      = lv (exState tr).state.temperatureVariation i + lv exEq.referenceTemperature i • exEq.ops.oneModal := by
+  intro i hi
+  rcases (by omega : i = 0 ∨ i = 1) with rfl | rfl <;>
+    (ext <;> simp [exT', exT₂, exState, exEq, toy, lv, J.add_def, J.smul_def, J.one_def] <;> norm_num)
+
+theorem ex_q_clip : ∀ x ∈ exQ, exEq.ops.clip x = x := by
+  intro z hz
+  simp only [exQ, List.mem_cons, List.not_mem_nil, or_false] at hz
+  rcases hz with rfl | rfl <;> rfl
+
+theorem ex_div : ∀ i, i < 2 → ∀ x : J,
+    ((1 : J) + (exEq.phys.CpVapor / (exEq.phys.R / exEq.phys.kappa) - 1) • exEq.ops.toNodal (lv exQ i))
+      * (x / ((1 : J) + (exEq.phys.CpVapor / (exEq.phys.R / exEq.phys.kappa) - 1) • exEq.ops.toNodal (lv exQ i)))
+      = x := by
+  intro i hi x
+  apply J.mul_div_cancel
+  rcases (by omega : i = 0 ∨ i = 1) with rfl | rfl <;>
+    (simp [exEq, exQ, exJ, toy, lv, J.add_def, J.smul_def, J.one_def] <;> norm_num)
+
+/-- T4.2 on the concrete object -/
+example : total (withTRef exEq exT₂) ((exState []).state.withT exT') = total exEq (exState []).state :=
+  total_tendency_indep_of_reference exEq exT₂ (exState []).state exT' 2 toy_laws (ex_admissible _)
+    (ex_shaped _) rfl rfl rfl (by norm_num) ex_abs
+
+/-- T4.3 on the concrete object: non-constant humidity, variable reference profiles -/
+example : ∃ r, totalMoist exEq (exState exMoist) = some r
+    ∧ totalMoist (withTRef exEq exT₂) { state := (exState exMoist).state.withT exT', simTime := 7 } = some r :=
+  total_tendency_moist_indep_of_reference exEq exT₂ (exState exMoist) exT' exQ 2 toy_laws toy_moistLaws
+    (ex_admissible _) (ex_shaped _) rfl rfl rfl (by norm_num) (by show (2 : ℚ) ≠ 0; norm_num)
+    (by simp [exState, exMoist, lookup]) rfl ex_q_clip ex_div ex_abs
+
+/-- `cloud_indep_of_reference_partial` on the concrete object (no condensate) -/
+example : ∃ r, totalCloud exEq
+      (exState [(specificHumidityKey, exQ), (cloudWaterKey, [0, 0]), (cloudIceKey, [0, 0])]) = some r
+    ∧ totalCloud (withTRef exEq exT₂)
+        { state := (exState [(specificHumidityKey, exQ), (cloudWaterKey, [0, 0]),
+            (cloudIceKey, [0, 0])]).state.withT exT', simTime := 7 } = some r :=
+  cloud_indep_of_reference_partial exEq exT₂ _ exT' exQ [0, 0] [0, 0] 2 toy_laws toy_moistLaws
+    (ex_admissible _) (ex_shaped _) rfl rfl rfl (by norm_num) (by show (2 : ℚ) ≠ 0; norm_num)
+    (by simp [exState, lookup, specificHumidityKey]) rfl ex_q_clip
+    (by simp [exState, lookup, specificHumidityKey, cloudWaterKey]) rfl
+    (by simp [exState, lookup, specificHumidityKey, cloudWaterKey, cloudIceKey]) rfl
+    (by simp) (by simp) ex_div ex_abs
+
+/-- **T4.4, the negation of the full statement with a concrete witness**: there is a grid
+ satisfying every named law, an admissible state with condensate and two reference profiles of the same
+ absolute temperature for which `explicit + implicit` of `MoistPrimitiveEquationsWithCloudMoisture`
+ evaluates without error and **differs** (here: level 0 of the divergence tendency, by
+ `R·(T_ref − T₂)·clip(div(q_l ∇ln p_s)) = 2·1·(x + y)`). -/
+theorem cloud_depends_on_reference :
+    ∃ (eq : PrimitiveEquations ℚ J J) (T₂ : List ℚ) (s₁ : StateWithTime ℚ J) (t₂ : List J) (n : ℕ),
+      Laws eq.ops ∧ MoistLaws eq.ops ∧ Admissible eq.ops s₁.state ∧ Shaped eq s₁.state n
+      ∧ T₂.length = n ∧ t₂.length = n
+      ∧ (∀ i, i < n → lv t₂ i + lv T₂ i • eq.ops.oneModal
+          = lv s₁.state.temperatureVariation i + lv eq.referenceTemperature i • eq.ops.oneModal)
+      ∧ totalCloud eq s₁ ≠ none
+      ∧ totalCloud (withTRef eq T₂) { state := s₁.state.withT t₂, simTime := s₁.simTime }
+          ≠ totalCloud eq s₁ := by
+  refine ⟨exEq, exT₂, exState exCloud, exT', 2, toy_laws, toy_moistLaws, ex_admissible _, ex_shaped _, rfl, rfl,
+    ex_abs, ?_, ?_⟩ <;>
+  obtain ⟨r₁, e1, hv, hd, e2⟩ := cloud_split_residual exEq exT₂ (exState exCloud) exT' exQ exQl exQi 2
+    toy_laws toy_moistLaws (ex_admissible _) (ex_shaped _) rfl rfl rfl (by norm_num)
+    (by show (2 : ℚ) ≠ 0; norm_num)
+    (by simp [exState, exCloud, lookup]) rfl ex_q_clip
+    (by simp [exState, exCloud, lookup, specificHumidityKey, cloudWaterKey]) rfl
+    (by simp [exState, exCloud, lookup, specificHumidityKey, cloudWaterKey, cloudIceKey]) rfl ex_div ex_abs
+  · rw [e1]; simp
+  · rw [e1, e2]
+    intro h
+    have hs : r₁.state.addMomentum _ = r₁.state := congrArg StateWithTime.state (Option.some.inj h)
+    refine State.addMomentum_ne r₁.state _ 0 ?_ ?_ hs
+    · rw [hd]; rfl
+    · intro h0
+      have := congrArg J.cx h0
+      simp [condResidual, Col.sub, Col.add, lv, exEq, exState, exT₂, exQl, exQi, exJ, toy, HOps.divCosLat,
+        HOps.cosLatGrad, weightedGradSec2, nodalGrad, J.clip, J.dx, J.dy, J.mul_def, J.smul_def, J.add_def,
+        J.one_def, J.zero_def] at this
+      norm_num at this
+
+end Examples
 end Dino.C04
